@@ -25,56 +25,62 @@ AddV(st, v) == IF st.dead THEN st ELSE Live(st.s \cup {v})
 
 FR(out, brk, cont, bad) == [out |-> out, brk |-> brk, cont |-> cont, bad |-> bad]
 
-RECURSIVE Flow(_, _, _), FlowSeq(_, _, _, _, _), FlowCond(_, _, _, _, _)
+RECURSIVE FlowG(_, _, _, _), FlowSeq(_, _, _, _, _, _), FlowCond(_, _, _, _, _, _)
 
 \* children a[i..] one after the other; acc carries brk/cont/bad so far
-FlowSeq(a, i, st, L, acc) ==
+FlowSeq(a, i, st, L, acc, nt) ==
   IF i > Len(a) THEN FR(st, acc.brk, acc.cont, acc.bad)
-  ELSE LET r == Flow(a[i], st, L) IN
-       FlowSeq(a, i + 1, r.out, L, FR(Dead, Meet(acc.brk, r.brk), Meet(acc.cont, r.cont), acc.bad \cup r.bad))
+  ELSE LET r == FlowG(a[i], st, L, nt) IN
+       FlowSeq(a, i + 1, r.out, L, FR(Dead, Meet(acc.brk, r.brk), Meet(acc.cont, r.cont), acc.bad \cup r.bad), nt)
 
 Empty == FR(Dead, Dead, Dead, {})
 
 \* Cond arms a[i], a[i+1]: condition then body; falling through every condition is err
-FlowCond(a, i, st, L, acc) ==
+FlowCond(a, i, st, L, acc, nt) ==
   IF i > Len(a) THEN FR(acc.out, acc.brk, acc.cont, acc.bad)
-  ELSE LET c == Flow(a[i], st, L)
-           b == Flow(a[i + 1], c.out, L)
+  ELSE LET c == FlowG(a[i], st, L, nt)
+           b == FlowG(a[i + 1], c.out, L, nt)
        IN FlowCond(a, i + 2, c.out, L,
                    FR(Meet(acc.out, b.out), Meet(acc.brk, Meet(c.brk, b.brk)), Meet(acc.cont, Meet(c.cont, b.cont)),
-                      acc.bad \cup c.bad \cup b.bad))
+                      acc.bad \cup c.bad \cup b.bad), nt)
 
-Flow(node, st, L) ==
+FlowG(node, st, L, nt) ==
   LET k == node.k
       a == node.a
   IN
   CASE k = "Load" ->
          FR(st, Dead, Dead, IF node.i[1] \in L /\ ~st.dead /\ node.i[1] \notin st.s THEN {node.i[1]} ELSE {})
     [] k = "Store" ->
-         LET r == Flow(a[1], st, L) IN FR(AddV(r.out, node.i[1]), r.brk, r.cont, r.bad)
+         LET r == FlowG(a[1], st, L, nt) IN FR(AddV(r.out, node.i[1]), r.brk, r.cont, r.bad)
     [] k = "Break" -> FR(Dead, st, Dead, {})
     [] k = "Continue" -> FR(Dead, Dead, st, {})
-    [] k \in {"Approve", "Reject", "Err"} -> FR(Dead, Dead, Dead, {})
+    [] k \in {"Approve", "Reject", "Err"} -> FR(IF nt THEN st ELSE Dead, Dead, Dead, {})
     [] k = "Return" ->
-         LET r == FlowSeq(a, 1, st, L, Empty) IN FR(Dead, r.brk, r.cont, r.bad)
+         LET r == FlowSeq(a, 1, st, L, Empty, nt) IN FR(IF nt THEN (IF a = <<>> THEN st ELSE r.out) ELSE Dead, r.brk, r.cont, r.bad)
     [] k = "If" ->
-         LET c == Flow(a[1], st, L)
-             t == Flow(a[2], c.out, L)
-             e == IF Len(a) >= 3 THEN Flow(a[3], c.out, L) ELSE FR(c.out, Dead, Dead, {})
+         LET c == FlowG(a[1], st, L, nt)
+             t == FlowG(a[2], c.out, L, nt)
+             e == IF Len(a) >= 3 THEN FlowG(a[3], c.out, L, nt) ELSE FR(c.out, Dead, Dead, {})
          IN FR(Meet(t.out, e.out), Meet(c.brk, Meet(t.brk, e.brk)), Meet(c.cont, Meet(t.cont, e.cont)),
                c.bad \cup t.bad \cup e.bad)
-    [] k = "Cond" -> FlowCond(a, 1, st, L, Empty)
+    [] k = "Cond" -> FlowCond(a, 1, st, L, Empty, nt)
     [] k = "While" ->
-         LET c == Flow(a[1], st, L)
-             b == Flow(a[2], c.out, L)
+         LET c == FlowG(a[1], st, L, nt)
+             b == FlowG(a[2], c.out, L, nt)
          IN FR(Meet(c.out, b.brk), Dead, Dead, c.bad \cup b.bad)
     [] k = "For" ->
-         LET s0 == Flow(a[1], st, L)
-             c == Flow(a[2], s0.out, L)
-             b == Flow(a[4], c.out, L)
-             sp == Flow(a[3], Meet(b.out, b.cont), L)
+         LET s0 == FlowG(a[1], st, L, nt)
+             c == FlowG(a[2], s0.out, L, nt)
+             b == FlowG(a[4], c.out, L, nt)
+             sp == FlowG(a[3], Meet(b.out, b.cont), L, nt)
          IN FR(Meet(c.out, b.brk), Dead, Dead, s0.bad \cup c.bad \cup b.bad \cup sp.bad)
-    [] OTHER -> FlowSeq(a, 1, st, L, Empty)      \* operands / statements in written order
+    [] OTHER -> FlowSeq(a, 1, st, L, Empty, nt)      \* operands / statements in written order
+
+\* nt = FALSE: Return/Approve/Reject/Err end a path (the definition the property uses).
+\* nt = TRUE: they do not - code that textually follows a terminator counts as reachable.  PyTeal's own analysis treats code
+\* that was merged into one block with a preceding terminator that way, so the acceptance claim of C20 is only made for
+\* programs that are initialised under both readings (conservative; never used to demand a rejection).
+Flow(node, st, L) == FlowG(node, st, L, FALSE)
 
 \* ---- which variables are local to which routine ------------------------------------------
 RECURSIVE UsedVars(_), UsedVarsSeq(_, _)
@@ -105,4 +111,6 @@ BadLoads(prog) ==
   UNION {Flow(BodyOf(prog, r), Live({}), LocalsOf(prog, r)).bad : r \in Routines(prog)}
 
 MustReject(prog) == BadLoads(prog) # {}
+BadLoadsDeadCode(prog) ==
+  UNION {FlowG(BodyOf(prog, r), Live({}), LocalsOf(prog, r), TRUE).bad : r \in Routines(prog)}
 =============================================================================
